@@ -11,6 +11,9 @@ package satellite
 //@ let n = len(Satellites)
 //@ ensures r1 == nil ==> len(r0) == n && fresh(r0) && startOfSatelliteData + 18*n + 24 <= 8*len(bitStream)
 //@ ensures r1 != nil ==> len(r0) == 0
+// the cells handed out belong to this result alone: a later decode cannot reach into them (the signal cells
+// of a message point at its satellite cells, and ranges are computed through those pointers)
+//@ ensures[C08] r1 == nil ==> fresh(r0)
 //@ ensures[C04] (r1 == nil) == (startOfSatelliteData + 18*n + 24 <= 8*len(bitStream))
 //@ ensures[C04] r1 == nil ==> forall(k, 0, n, r0[k].ID == Satellites[k] && r0[k].RangeWholeMillis == bits(bitStream, startOfSatelliteData + 8*k, 8) && r0[k].RangeFractionalMillis == bits(bitStream, startOfSatelliteData + 8*n + 10*k, 10) && r0[k].LogLevel == logLevel)
 //@ loop 1
